@@ -978,6 +978,31 @@ def rule_hex_literal_form(ctx):
                   found="pattern %r refuses %r" % (p_, w))
 
 
+def rule_float_constant_finite(ctx, R="C10.float-literal-form"):
+    """the grammar has no spelling for the infinities and NaN, but float() produces them (a literal with 400 digits is inf,
+    float('nan') converts): every path through the constructor that ends normally refuses a non-finite value.  (For the
+    equivalence test the same clause is soundness: two different literals beyond the double range become one constant.)"""
+    run = ctx.run
+    cls = ctx.prog.cls(PAT + "::FloatConstant")
+    init = cls.methods.get("__init__")
+    if init is None:
+        raise AnalysisError("anchor missing: FloatConstant.__init__")
+    g = cfg_of(init)
+
+    def refuses(nd):
+        return nd.kind == "test" and isinstance(nd.ast, ast.If) and any(
+            isinstance(c, ast.Call) and norm(c.func) in ("math.isfinite", "math.isnan", "math.isinf", "isfinite", "isnan", "isinf")
+            for c in ast.walk(nd.ast.test)) and any(isinstance(s_, ast.Raise) for s_ in nd.ast.body)
+    ok_, bypass = g.must_pass(refuses, labels_skip=("exc", "raise"))
+    run.check(ok_, R, key(cls.module.relpath, "FloatConstant.__init__", "non-finite-refused"),
+              "FloatConstant accepts a non-finite value: float() turns a literal beyond the double range into inf (and 'nan' "
+              "into NaN), which prints as 'inf' / 'nan' -- text the pattern grammar does not have; a valid pattern "
+              "[a:b = 1000...0.0] (400 digits) parses into a model whose text no longer parses, and two different such "
+              "literals become the same constant", file=cls.module.relpath, line=init.node.lineno,
+              function="FloatConstant.__init__", expected="if not math.isfinite(self.value): raise ValueError(...)",
+              found="a path to the normal exit without a finiteness test", path=g.describe_path(bypass) if bypass else None)
+
+
 def rule_float_literal_form(ctx):
     """FloatLiteral of the grammar is [+-]? [0-9]* '.' [0-9]+ : no exponent.  str()/repr()/'%s' of a Python float switches
     to exponent notation below 1e-4 and from 1e16, so a printer that uses it unguarded writes text that does not parse."""
@@ -991,6 +1016,7 @@ def rule_float_literal_form(ctx):
         raise AnalysisError("anchor missing: FloatConstant.__init__/__str__")
     is_float = any(isinstance(a, ast.Assign) and norm(a.targets[0]) == "self.value" and isinstance(a.value, ast.Call)
                    and call_simple_name(a.value) == "float" for a in body_walk(init.node))
+    rule_float_constant_finite(ctx, R)
     txt = norm(st.node)
     plain = [x for x in body_walk(st.node) if (isinstance(x, ast.BinOp) and isinstance(x.op, ast.Mod) and isinstance(x.left, ast.Constant)
                                                and x.left.value in ("%s", "%r") and "self.value" in norm(x.right))
